@@ -16,7 +16,7 @@ ROOT = os.path.dirname(os.path.dirname(os.path.abspath(__file__)))
 REPO = os.environ.get("VERIF_REPO", "/repo")
 COQ = os.path.join(ROOT, "coq")
 THEORIES = os.path.join(COQ, "theories")
-WORK = os.path.join(ROOT, "work")
+WORK = os.path.join(ROOT, "work" + os.environ.get("VERIF_WORKTAG", ""))      # VERIF_WORKTAG: a second check of the same property at the same time
 EVID = os.path.join(ROOT, "evidence")
 CORPUS = os.path.join(ROOT, "corpus")
 LOGICAL = "RV"
